@@ -312,12 +312,12 @@ class ExecMixin:
             st.assume(And(idx >= 0, idx < x.len))
             et = x.et
             if self.K(et) == 'struct':
-                r = self.elemref(et)(x.arr, x.base + idx)
+                r = self.elemref(et)(x.arr, self.at(x.base, idx))
                 st.assume(r > 0)
                 return r
             if self.K(et) == 'array':
                 raise Unsupported('slice of arrays')
-            return Loc('mem:' + self.skey(et), (x.arr, x.base + idx), et)
+            return Loc('mem:' + self.skey(et), (x.arr, self.at(x.base, idx)), et)
         if isinstance(x, Loc) and x.arrlen is not None:
             self.oblige(st, fr, 'safety.index', 'array', And(idx >= 0, idx < x.arrlen), site)
             st.assume(And(idx >= 0, idx < x.arrlen))
